@@ -127,7 +127,13 @@ func genC06(t *rapid.T) *c06Case {
 // (4-byte big-endian length, then the packet).
 func c06SendOverProtoStream(pair *h.Pair, f fsutil.FS, prog func(int, bool)) (err error) {
 	toBridgeR, toBridgeW := io.Pipe()
-	toSenderR, toSenderW := io.Pipe()
+	// towards the sender a kernel pipe: it buffers, so a burst of requests is
+	// there to be read at once (a reader that reads ahead must keep what it read)
+	toSenderR, toSenderW, perr := os.Pipe()
+	if perr != nil {
+		return perr
+	}
+	defer toSenderR.Close()
 	stream := util.NewProtoStream(pair.S.Context(), toSenderR, toBridgeW)
 	var bw sync.WaitGroup
 	bw.Add(1)
@@ -158,7 +164,7 @@ func c06SendOverProtoStream(pair *h.Pair, f fsutil.FS, prog func(int, bool)) (er
 		for {
 			var p types.Packet
 			if e := pair.S.RecvMsg(&p); e != nil {
-				toSenderW.CloseWithError(io.EOF)
+				toSenderW.Close()
 				return
 			}
 			body, _ := p.MarshalVT()
